@@ -236,12 +236,14 @@ pub fn oracle_ref(s: &Store, bank: &Bank) -> Result<OracleRef, OracleErr> {
             }
             let v = s.get(&cfg.oracle_keys[1]).ok_or(OracleErr::Missing)?;
             // (numerator, denominator) of the exchange rate, and freshness of the venue account
+            let mut venue_decimals: u32 = 0;
             let (num, den, fresh): (u128, u128, bool) = match cfg.oracle_setup {
                 OracleSetup::KaminoPythPush => {
                     if v.owner != kamino_mocks::ID || v.data.len() < 8 + std::mem::size_of::<kamino_mocks::state::MinimalReserve>() {
                         return Err(OracleErr::BadData);
                     }
                     let r: kamino_mocks::state::MinimalReserve = bytemuck::pod_read_unaligned(&v.data[8..8 + std::mem::size_of::<kamino_mocks::state::MinimalReserve>()]);
+                    venue_decimals = r.mint_decimals as u32;
                     (r.available_amount as u128, r.mint_total_supply as u128, r.slot >= s.slot)
                 }
                 OracleSetup::SolendPythPull => {
@@ -251,6 +253,7 @@ pub fn oracle_ref(s: &Store, bank: &Bank) -> Result<OracleRef, OracleErr> {
                         return Err(OracleErr::BadData);
                     }
                     let r: solend_mocks::state::SolendMinimalReserve = bytemuck::pod_read_unaligned(&v.data[off..off + std::mem::size_of::<solend_mocks::state::SolendMinimalReserve>()]);
+                    venue_decimals = r.liquidity_mint_decimals as u32;
                     (r.liquidity_available_amount as u128, r.collateral_mint_total_supply as u128, r.last_update_slot >= s.slot)
                 }
                 _ => {
@@ -273,9 +276,17 @@ pub fn oracle_ref(s: &Store, bank: &Bank) -> Result<OracleRef, OracleErr> {
                     // integer arithmetic: raw x cumulative interest / 10^10, floored
                     (raw * num as i128).div_euclid(den as i128)
                 } else {
-                    // rate at 2^-48 resolution, product floored
-                    let rate48 = ((num << 48) / den) as i128;
-                    (raw * rate48) >> 48
+                    // both supplies are held in whole tokens at 2^-48 resolution (rounded down); the rate is
+                    // their quotient at 2^-48 resolution with the collateral side taken one ulp up, so that
+                    // it never exceeds the exact rate (C20 checks that independently); product floored
+                    use num_bigint::BigInt;
+                    use num_traits::ToPrimitive;
+                    let scale = BigInt::from(10u128.pow(venue_decimals.min(23)));
+                    let l48: BigInt = (BigInt::from(num) << 48) / &scale;
+                    let c48: BigInt = (BigInt::from(den) << 48) / &scale + 1;
+                    let rate48: BigInt = (l48 << 48) / c48;
+                    let prod: BigInt = (BigInt::from(raw) * rate48) >> 48;
+                    prod.to_i128().unwrap_or(i128::MAX)
                 }
             };
             let scale = pow10_signed(p.expo);
